@@ -1,4 +1,5 @@
 import LunaVerif.Lemmas.C07StreamRun
+import LunaVerif.Model.Device.ControlM
 /-!
 # `cycle_refines_event_streams_run` for EVERY `max_packet_size`
 
@@ -19,48 +20,10 @@ size (`cycle_refines_event_streams_mps`, `cycle_refines_event_all_mps`, `cycle_r
 -/
 namespace LunaVerif.Device
 
-/-! ### The event-level model, `start_position` advance by `max_packet_size` -/
+/-! ### The event-level model, `start_position` advance by `max_packet_size`
 
-/-- `Device.stdAck` with the GET_DESCRIPTOR advance `start_position += max_packet_size` (11-bit register). -/
-def stdAckM (mps : Nat) (s : DevState) : DevState :=
-  match s.hstate with
-  | .clearFeature => toIdle s
-  | .setAddress => toIdle { s with address := s.setup.value % 128 }
-  | .setConfiguration => toIdle { s with config := s.setup.value % 256 }
-  | .getDescriptor =>
-      if s.expectingAck then
-        { s with startPos := (s.startPos + mps) % 2048, txPid := !s.txPid, expectingAck := false }
-      else s
-  | _ => s
-
-/-- `Device.onHandshake` with `stdAckM`; the ghost `gDataDone` (the host has ACKed a short packet: the data stage is
-over) compares with `max_packet_size`. -/
-def onHandshakeM (mps : Nat) (s : DevState) (pid : Nat) : DevState :=
-  if pid = PID_ACK ∧ s.tokEp = 0 ∧ s.tokPid = PID_IN ∧ s.setup.type = TYPE_STANDARD then
-    let s' := stdAckM mps s
-    if s.hstate = .getDescriptor ∧ s.expectingAck ∧ s.gRespLen < mps then { s' with gDataDone := true } else s'
-  else s
-
-/-- `Device.core` with the host handshake handled by `onHandshakeM c.maxPacket`. -/
-def coreM (c : DevConfig) (s : DevState) (e : HostEvent) : DevState × Resp :=
-  match e with
-  | .handshake pid => (onHandshakeM c.maxPacket s pid, .none)
-  | _ => core c s e
-
-/-- `Device.step` over `coreM`. -/
-def stepM (c : DevConfig) (s : DevState) (x : Stim) : DevState × Resp :=
-  let r := coreM c s x.ev
-  let resp := if r.2.isNone ∧ r.1.tokEp ≠ 0 then x.foreign else r.2
-  ({ r.1 with gRespData := resp.isData, gRespLen := resp.dataLen, gPrevTok := tokenPidOf x.ev }, resp)
-
-def finalM (c : DevConfig) : DevState → List Stim → DevState
-  | s, [] => s
-  | s, x :: xs => finalM c (stepM c s x).1 xs
-
-/-- The responses (control endpoint merged with the other endpoints) along a history. -/
-def respsM (c : DevConfig) : DevState → List Stim → List Resp
-  | _, [] => []
-  | s, x :: xs => (stepM c s x).2 :: respsM c (stepM c s x).1 xs
+`stdAckM`, `onHandshakeM`, `coreM`, `stepM`, `finalM`, `respsM` live in Model/Device/ControlM.lean (core Lean only: the
+compiled driver `drv_dev` steps with `stepM`); they were moved there from this file unchanged. -/
 
 /-! ### For `max_packet_size = 64` it is the model of Model/Device/Control.lean -/
 
